@@ -269,7 +269,7 @@ func (ir *ifdReader) ParseSubSecTime(t Tag) uint16 {
 
 func (ir *ifdReader) parseLensInfo(t Tag) LensInfo {
 	if !t.IsEmbedded() {
-		buf, err := ir.readTagValue()
+		buf, err := ir.readTagValue(t)
 		if err != nil {
 			return LensInfo{}
 		}
@@ -287,7 +287,7 @@ func (ir *ifdReader) parseLensInfo(t Tag) LensInfo {
 func (ir *ifdReader) ParseRationalU(t Tag) [2]uint32 {
 	switch t.Type {
 	case tag.TypeSignedRational, tag.TypeRational:
-		buf, err := ir.readTagValue()
+		buf, err := ir.readTagValue(t)
 		if err != nil {
 			return [2]uint32{}
 		}
@@ -339,7 +339,7 @@ func (ir *ifdReader) ParseString(t Tag) string {
 		return string(trimNULBuffer(ir.buffer.buf[:t.Size()]))
 	}
 	if t.IsType(tag.TypeASCII) || t.IsType(tag.TypeASCIINoNul) {
-		buf, _ := ir.readTagValue()
+		buf, _ := ir.readTagValue(t)
 		return string(trimNULBuffer(buf)) // Trim function
 	}
 	if ir.logLevelWarn() {
@@ -357,7 +357,7 @@ func (ir *ifdReader) ParseBuffer(t Tag) []byte {
 		return trimNULBuffer(ir.buffer.buf[:t.Size()])
 	}
 	if t.IsType(tag.TypeASCII) || t.IsType(tag.TypeASCIINoNul) {
-		buf, err := ir.readTagValue()
+		buf, err := ir.readTagValue(t)
 		if err != nil {
 			return nil
 		}
@@ -374,7 +374,7 @@ func (ir *ifdReader) ParseBuffer(t Tag) []byte {
 // Non-embedded tag with 20 byte length.
 func (ir *ifdReader) ParseDate(t Tag) time.Time {
 	if t.IsType(tag.TypeASCII) {
-		buf, err := ir.readTagValue()
+		buf, err := ir.readTagValue(t)
 		if err != nil {
 			return time.Time{}
 		}
@@ -400,7 +400,7 @@ func (ir *ifdReader) ParseDate(t Tag) time.Time {
 // Non-embedded tag with 6 byte length.
 func (ir *ifdReader) ParseOffsetTime(t Tag) *time.Location {
 	if t.IsType(tag.TypeASCII) {
-		buf, err := ir.readTagValue()
+		buf, err := ir.readTagValue(t)
 		if err != nil {
 			return time.UTC
 		}
@@ -434,7 +434,7 @@ func (ir *ifdReader) ParseGPSCoord(t Tag) float64 {
 	if t.UnitCount == 3 {
 		switch t.Type {
 		case tag.TypeRational, tag.TypeSignedRational: // Some cameras write tag out of spec using signed rational. We accept that too.
-			buf, err := ir.readTagValue()
+			buf, err := ir.readTagValue(t)
 			if err != nil {
 				return 0.0
 			}
@@ -455,7 +455,7 @@ func (ir *ifdReader) ParseGPSAltitude(t Tag) float32 {
 	if t.UnitCount == 1 {
 		switch t.Type {
 		case tag.TypeRational, tag.TypeSignedRational: // Some cameras write tag out of spec using signed rational. We accept that too.
-			buf, err := ir.readTagValue()
+			buf, err := ir.readTagValue(t)
 			if err != nil {
 				return 0.0
 			}
@@ -471,7 +471,7 @@ func (ir *ifdReader) ParseGPSAltitude(t Tag) float32 {
 // parseGPSTimeStamp parses the GPSTimeStamp tag in UTC.
 func (ir *ifdReader) parseGPSTimeStamp(t Tag) uint32 {
 	if t.UnitCount == 3 && t.Type == tag.TypeRational {
-		buf, err := ir.readTagValue()
+		buf, err := ir.readTagValue(t)
 		if err != nil {
 			return 0
 		}
@@ -503,7 +503,7 @@ func (ir *ifdReader) parseGPSTimeStamp(t Tag) uint32 {
 // parseGPSDateStamp parses a GPSDateStamp from the tag
 func (ir *ifdReader) parseGPSDateStamp(t Tag) time.Time {
 	if t.IsType(tag.TypeASCII) {
-		buf, err := ir.readTagValue()
+		buf, err := ir.readTagValue(t)
 		if err != nil {
 			return time.Time{}
 		}
